@@ -1,1 +1,2 @@
-(* Props/C02.v -- stub, to be filled *)
+(* C02 statements pinned here *)
+From A1 Require Import Uper.Reader.
